@@ -2,7 +2,8 @@
 selection, split on a mixed row, cuts, the recursion of PIP_Solution_Node::solve (helper of checks/c07.py).
 
 proof:  PPLV.Props.C07Core over the code-shaped model lean/PPLV/Solver/PIPCore*.lean
-        (pivot_preserves, row_sign_sound, pivot_choice_lexico, solution_node_correct, split_partitions_context, ...).
+        (pivot_preserves, row_sign_sound, pivot_choice_lexico, solution_node_correct, split_partitions_context,
+        solve_partial_correct = both halves for the repaired code, solve_bottom_before_fix_fails for the code before deb2fdf).
 tie:    harness/c07_core.cc (`#define private public`) journals, for seeded small FRESH problems (1-3 variables,
         0-2 parameters, 1-5 rows, the 3 x 2 strategy settings), the tableau of the root PIP_Solution_Node as
         update_tableau builds it, the initial context, and after PIP_Problem::solve() the whole tree read through the
@@ -87,7 +88,7 @@ def _judge(ctx, journal, verdicts, seed, harness_args):
     if missing:
         ctx.fatal("pplv_pipcore judged %d of %d cases (first missing: %d)" % (len(cases) - len(missing), len(cases), missing[0]))
 
-    H = {k: collections.Counter() for k in ("nv", "np", "rows", "ctx", "cut", "piv", "sols", "decs", "arts", "cutrows", "maxden", "depth")}
+    H = {k: collections.Counter() for k in ("nv", "np", "rows", "ctx", "cut", "piv", "sols", "decs", "arts", "cutrows", "maxden", "depth", "variant")}
     stats = collections.Counter()
     distinct, nontrivial, samples = set(), 0, []
     evals = unknown = points = affine = 0
@@ -210,6 +211,9 @@ def run(ctx, prove=True):
         "c07_core: the model is a dense transliteration of the PPL_USE_SPARSE_MATRIX code; with CUTTING_STRATEGY_DEEPEST / ALL the "
         "score of a row counts the STORED entries of a sparse row (a stored zero adds the denominator), which the dense model cannot "
         "know: a replay difference under these two strategies is counted as `sparse-dependent-cut-choice`, the real tree is still judged",
+        "c07_core: the model is the code WITH the repair of KF-C07-12 (commit deb2fdf); a real tree that differs from it but equals the "
+        "model of the code before the repair (PIPCoreSolveAsWritten.lean) is reported as `model:variant_as_written` (a regression of the "
+        "library), histograms.variant must read repaired only",
         "c07_core: compatibility_check is modelled (PIPCoreCompat.lean) and replayed inside solve, but the theorems take its decision "
         "contract (true iff the context has a non-negative integer solution) as hypothesis",
         "c07_core: problems with a big parameter are replayed exactly but not judged (open finding KF-C07-3); a solve over the CPU "
